@@ -20,12 +20,14 @@ import (
 	"jetverif/harness/sx"
 )
 
-//go:embed embedtree
+//go:embed all:embedtree
 var embedTree embed.FS
 
 // the tree every file-system loader is rooted at: canonical path -> content; directories listed
-var fsFiles = map[string]string{"/a.jet": "A", "/sub/b.jet": "B", "/sub/deep/c.jet": "C", "/x.html.jet": "X"}
-var fsDirs = []string{"/", "/sub", "/sub/deep", "/emptydir"}
+// (names with dots in odd places are ordinary names: "..", as a path element, never reaches a loader)
+var fsFiles = map[string]string{"/a.jet": "A", "/sub/b.jet": "B", "/sub/deep/c.jet": "C", "/x.html.jet": "X",
+	"/rep.v1..v2.jet": "R", "/arch..2024/x.jet": "Y", "/sub/..c.jet": "D"}
+var fsDirs = []string{"/", "/sub", "/sub/deep", "/emptydir", "/arch..2024"}
 
 func genC19(r *h.Rand, tier string) []h.Case {
 	n := 500
@@ -140,7 +142,7 @@ func genC19(r *h.Rand, tier string) []h.Case {
 				all = append(all, p)
 			}
 			all = append(all, fsDirs...)
-			all = append(all, "/missing.jet", "/sub/missing", "/a.jet/x", "/sub/deep/c", "/a")
+			all = append(all, "/missing.jet", "/sub/missing", "/a.jet/x", "/sub/deep/c", "/a", "/rep.v1.v2.jet", "/arch.2024/x.jet", "/sub/.c.jet", "/...", "/sub/...")
 			sortStrings(all)
 			p := r.Pick(all)
 			kind := r.Pick([]string{"os", "http", "embed", "os-stack"})
